@@ -1,8 +1,7 @@
 import Driver.Common
 import FranzVerif.Model.Conn
 /-! Sub-driver C22 (`conn` scenarios): replays the event history through the connection monitor. The model output is
-`*` (the history depends on the Go scheduler); the verdict is the monitor's first refusal. For the tag-count
-witnesses the frame model must itself predict the super-linear step count (otherwise the verdict says so). -/
+`*` (the history depends on the Go scheduler); the verdict is the monitor's first refusal. -/
 open Driver Model.Conn Model.C22Frame
 
 def parseCls (s : String) : Cls :=
@@ -45,11 +44,12 @@ def refusals : St → List Ev → List String → List String
     | none => refusals (apply s e) es acc
     | some r => refusals (apply s e) es (r :: acc)
 
-/-- largest step count the frame model predicts for a scripted frame, relative to the linear bound 16·len+16 -/
-def superLinear (es : List Ev) : Bool :=
-  es.any (fun e => match e with
-    | .frame fr => decide ((parseFrameFast 4096 (match u32? (fr.full.drop 4) with | some c => c | none => 0) true true fr.full).steps > 16 * fr.full.length + 16)
-    | _ => false)
+/-- the frame model's step count for every scripted frame stays within the proved linear bound (sanity of the driver's
+executable model; `Props.C22.parseFrame_steps_linear` is the theorem) -/
+def stepsLinear (es : List Ev) : Bool :=
+  es.all (fun e => match e with
+    | .frame fr => decide ((parseFrame 4096 (match u32? (fr.full.drop 4) with | some c => c | none => 0) true true fr.full).steps ≤ 2 * fr.full.length + 1)
+    | _ => true)
 
 def handle (line : String) : String :=
   let (_, impl) := splitBar line
@@ -66,9 +66,8 @@ def handle (line : String) : String :=
   let nOk := (es.filter (fun e => match e with | .ok .. => true | _ => false)).length
   let nErr := (es.filter (fun e => match e with | .err .. => true | _ => false)).length
   let nt := boolStr (decide (nIssue ≥ 2) && decide (nErr > 0 || nOk ≥ 2))
-  let hugeHeader := (toks impl).any (fun t => (t.splitOn ":").getD 3 "" == "hugetags")
   match rs with
-  | [] => if hugeHeader && !superLinear es then s!"* | 0:C22.frame-model-misses-tag-loop | {nt}" else s!"* | 1 | {nt}"
+  | [] => if !stepsLinear es then s!"* | 0:C22.frame-model-steps-not-linear | {nt}" else s!"* | 1 | {nt}"
   | r :: _ => s!"* | 0:{r} | {nt}"
 
 def main : IO UInt32 := runLoop () (fun _ line => ((), handle line))
